@@ -344,6 +344,29 @@ def rule_join(ctx):
                 res.append((bool(p2) or st.dead, "guarded join: stored when e > R[i], skipped only when e <= R[i]" if (p2 or st.dead) else
                             "the register is left unchanged although the candidate may exceed it", fact_strs(e)))
             agg(ctx, "join", k, g[0].node, src(k, g[0].node), "register update is the join R[i] <- max(R[i], e)", res)
+        if role == "add":
+            # every path through _add performs the join exactly once (no key is silently skipped)
+            res = []
+            cand = idxl = None
+            for e in stores:
+                t = e.value.lin.single_term() if isinstance(e.value, Num) else None
+                if t is not None and t in w.P.minmax and e.old is not None:
+                    _, a, b = w.P.minmax[t]
+                    cand = b if a == Lin.term(e.old) else a
+                    idxl = e.idx[0].lin
+                elif isinstance(e.value, Num):
+                    cand, idxl = e.value.lin, e.idx[0].lin
+            for r in [e for e in w.events if e.kind == "ret"]:
+                pre = on_path(w.events, r)
+                n = len([x for x in pre if x in stores])
+                if n == 0 and cand is not None:
+                    # a skipped join is harmless only if the candidate provably does not exceed the register
+                    rd = [x for x in pre if x.kind == "read" and x.arr.name == reg and x.idx[0].lin == idxl]
+                    if any(w.P.prove_le0(cand - Lin.term(x.term), r.facts) for x in rd):
+                        res.append((True, "join skipped only when rank <= register", fact_strs(r)))
+                        continue
+                res.append((n == 1, "one register join per add" if n == 1 else "%d register updates on a path through _add" % n, fact_strs(r)))
+            agg(ctx, "join", k, k.node, "%s: every path joins once" % k.name, "each add performs exactly one register join, whatever the key", res)
         # merge: e is the other operand's register at the same index
         if role == "merge":
             oreg = None
